@@ -1,15 +1,22 @@
 #!/bin/bash
-# Build the whole Coq development from files on disk (offline). Full .vo build.
+# Build the Coq development from files on disk (offline). Full .vo build (never -vos).
+#   ./setup.sh                 builds what the registered checks need (MANIFEST.json)
+#   ./setup.sh Properties/C16.vo ...   builds the given targets
+# Everything (table regeneration, _CoqProject, make) runs under one lock.
 set -e
 cd "$(dirname "$0")"
+if [ -z "${VERIF_SETUP_LOCKED:-}" ]; then
+  export VERIF_SETUP_LOCKED=1
+  exec flock coq/.build.lock "$0" "$@"
+fi
 export PYTHONHASHSEED=0 PYTHONDONTWRITEBYTECODE=1
 # T1: every harness/gen_*.py regenerates its own coq/gen/*.v from ${VERIF_REPO:-/repo} (rewritten only on change)
 for g in harness/gen_*.py; do
   PYTHONPATH="${VERIF_REPO:-/repo}/src:$(pwd)" /venv/bin/python "$g" 2>&1 | grep -v 'WARNING conda' || true
 done
 cd coq
-( echo "-Q . BP"; find Base gen Model Spec Proofs Properties -name '*.v' | LC_ALL=C sort ) > _CoqProject.new
-if ! cmp -s _CoqProject.new _CoqProject 2>/dev/null; then mv _CoqProject.new _CoqProject; coq_makefile -f _CoqProject -o Makefile >/dev/null; else rm _CoqProject.new; fi
+( echo "-Q . BP"; find Base gen Model Spec Proofs Properties -name '*.v' | LC_ALL=C sort ) > _CoqProject.new.$$
+if ! cmp -s _CoqProject.new.$$ _CoqProject 2>/dev/null; then mv _CoqProject.new.$$ _CoqProject; coq_makefile -f _CoqProject -o Makefile >/dev/null; else rm -f _CoqProject.new.$$; fi
 [ -f Makefile ] || coq_makefile -f _CoqProject -o Makefile >/dev/null
 if [ $# -eq 0 ]; then
   # no targets: build what the registered checks need (other files may be work in progress)
@@ -20,4 +27,4 @@ print(" ".join(f"Properties/{c['property_id']}.vo" for c in m["checks"]), "Model
 PY
 )
 fi
-exec flock .build.lock timeout 3000 make -j"${VERIF_JOBS:-16}" "$@"
+exec timeout 3000 make -j"${VERIF_JOBS:-16}" "$@"
